@@ -1,20 +1,20 @@
-\* requests handled one at a time: I refines P; parent (one window) + two grouped children, costs {1,2}
+\* requests handled one at a time: I refines P (exact verdicts); parent (one window) + grouped child, costs {1,2}, longer horizon
 CONSTANTS
-  Quota = {"p", "c1", "c2"}
-  Parent <- cParent
-  Max <- cMax
-  W <- cW
-  Grouped <- cGrouped
+  Quota = {"p", "c"}
+  Parent <- eParent
+  Max <- eMax
+  W <- eW
+  Grouped <- eGrouped
   Group = {"a", "default"}
   Gran = 2
   Costs = {1, 2}
   Steps = {1, 2, 3}
-  MaxNow = 8
+  MaxNow = 13
   Ids = {"x"}
   N = 1
   Mode = "seq"
   Variant = "none"
 SPECIFICATION ISpec
-PROPERTIES Refines ExactP NoCarryP
+PROPERTIES Refines
 INVARIANTS BoundP MemoClean
 CHECK_DEADLOCK FALSE
